@@ -220,6 +220,7 @@ def run_pbt_shards(prop, bins, n_total, size, shards, tier, extra_env=None, prop
             if not stats['ok'] and stats.get('fail_case') and os.path.exists(stats['fail_case']):
                 with open(stats['fail_case']) as f:
                     merged['fails'].append(dict(text=f.read(), msg=stats['fail_msg'], crash=False))
+                os.remove(stats['fail_case'])
         if rc != 0 and not (stats and not stats['ok']):
             # crashed (sanitizer / assertion / signal): pick up the case being executed
             cur = os.path.join(WORK, 'pbt-%s-%d' % (prop_arg or prop, p.pid), 'current.case')
